@@ -129,7 +129,8 @@ class Prop(SeqProp):
                     if w[0] == "put":
                         r = obj(int(w[1]), dec_val(int(w[2]))); out.append("ok" if r is obj else "ok?")
                     elif w[0] == "drain":
-                        out.append("list " + s(enc_val(x) for x in obj))
+                        items = list(itertools.islice(iter(obj), 10000))
+                        out.append("list " + s(enc_val(x) for x in items) + (",?endless" if len(items) == 10000 else ""))
                     elif w[0] == "flush":
                         obj.flush(); out.append("ok")
                     elif w[0] == "wf":
@@ -167,7 +168,8 @@ class Prop(SeqProp):
                     elif w[0] == "len":
                         out.append(f"ret {len(obj)}")
                     elif w[0] == "list":
-                        out.append("list " + s(enc_val(x) for x in obj))
+                        items = list(itertools.islice(iter(obj), 10000))
+                        out.append("list " + s(enc_val(x) for x in items) + (",?endless" if len(items) == 10000 else ""))
                     else:
                         out.append("bad-op")
             except BaseException as e:  # noqa
